@@ -13,6 +13,7 @@ import (
 	"crypto/sha256"
 	"encoding/hex"
 	"fmt"
+	"math/rand"
 	"os"
 	"path/filepath"
 	"sort"
@@ -74,6 +75,26 @@ func splitMain(files map[string]string, parts int) []string {
 	return names
 }
 
+// indirectGenerics is a program in which six packages hold only generic code that is
+// instantiated from the body of main's generic function, and each of them instantiates the
+// generics of one shared package with its own type arguments: the instances of those packages
+// are discovered in one propagation round, in an order the compiler has to normalise.
+func indirectGenerics(r *rand.Rand) map[string]string {
+	files := map[string]string{}
+	files["shared/shared.go"] = "package shared\n\ntype Box[A, B any] struct {\n\tA A\n\tB B\n}\n\nfunc Size[A, B any](a A, b B) int {\n\treturn len([]interface{}{a, b, Box[A, B]{a, b}, Wrap[B](b)})\n}\n\nfunc Wrap[X any](x X) []X { return []X{x, x} }\n"
+	tys := []string{"int8", "uint32", "string", "float64", "[]byte", "map[string]int16", "bool", "complex64", "[2]uint16", "*int32"}
+	r.Shuffle(len(tys), func(i, j int) { tys[i], tys[j] = tys[j], tys[i] })
+	var calls, imports strings.Builder
+	for k := 1; k <= 6; k++ {
+		name := fmt.Sprintf("p%c%d", 'a'+r.Intn(26), k)
+		files[name+"/"+name+".go"] = fmt.Sprintf("package %s\n\nimport \"prog/shared\"\n\nfunc F[T any](v T) int {\n\tvar z %s\n\treturn shared.Size[T, %s](v, z) + g[T](v)\n}\n\nfunc g[T any](v T) int {\n\tvar z []%s\n\treturn len(shared.Wrap(z)) + shared.Size[[]T, []%s]([]T{v}, z)\n}\n", name, tys[k], tys[k], tys[k], tys[k])
+		fmt.Fprintf(&imports, "\t\"prog/%s\"\n", name)
+		fmt.Fprintf(&calls, "\tn += %s.F(v)\n", name)
+	}
+	files["main.go"] = "package main\n\nimport (\n" + imports.String() + ")\n\nfunc stats[T any](v T) int {\n\tn := 0\n" + calls.String() + "\treturn n\n}\n\nfunc main() {\n\tprintln(stats(int32(1)) + stats(\"s\") + stats([]float32{1}))\n}\n"
+	return files
+}
+
 // Run is the C17 check.
 func Run(c *core.Ctx) int {
 	nprog := c.N(6, 16)
@@ -86,7 +107,9 @@ func Run(c *core.Ctx) int {
 	var jobs []job
 	for i := 0; i < nprog; i++ {
 		r := c.Rand(fmt.Sprint("p", i))
-		if i%2 == 0 {
+		if i%6 == 4 {
+			jobs = append(jobs, job{fmt.Sprintf("indirect-generics-%d", i), indirectGenerics(r), "generic-indirect"})
+		} else if i%2 == 0 {
 			jobs = append(jobs, job{fmt.Sprintf("generic-%d", i), c04.Generate(r, 8+r.Intn(10)), "generic-5pkg"})
 		} else {
 			p := progen.Generate(r, progen.Options{Cases: 8, StmtsPer: 8, BoxStruct: true})
@@ -205,6 +228,7 @@ func Run(c *core.Ctx) int {
 			sort.Strings(all)
 			_ = names
 			hs := map[string][]string{}
+			hsMin := map[string][]string{}
 			r := c.Rand("perm" + j.name)
 			for p := 0; p < 4; p++ {
 				// re-create the files on disk in a different order each time
@@ -227,6 +251,14 @@ func Run(c *core.Ctx) int {
 				}
 				h := hashFile(filepath.Join(fdir, "out.js"))
 				hs[h] = append(hs[h], "order:"+strings.Join(args, ","))
+				// the minified build of the same listing (positions in the file set depend on
+				// the order in which the files were parsed; nothing of them may reach the output)
+				if crm := c.CompileJS(fdir, core.CompileOpt{CLI: true, Files: args, Out: "outm.js", Minify: true}); crm.OK {
+					hm := hashFile(filepath.Join(fdir, "outm.js")) + "/" + hashFile(filepath.Join(fdir, "outm.js.map"))
+					hsMin[hm] = append(hsMin[hm], "order:"+strings.Join(args, ","))
+				} else {
+					c.Inconclusive("files-mode-minified-compile-failed")
+				}
 				cr2 := c.CompileJS(fdir, core.CompileOpt{CLI: true, Out: "dir.js"})
 				if cr2.OK {
 					h2 := "dirmode:" + hashFile(filepath.Join(fdir, "dir.js"))
@@ -238,6 +270,9 @@ func Run(c *core.Ctx) int {
 			}
 			if len(hs) > 0 {
 				report("file-argument-order", hs)
+			}
+			if len(hsMin) > 0 {
+				report("file-argument-order/min", hsMin)
 			}
 			// directory mode after different creation orders
 			hd := map[string][]string{}
